@@ -176,6 +176,12 @@ class Draws:
     def note(self, **kw):
         self.notes.update(kw)
 
+    def untraced(self):
+        """context manager: run a fully CONCRETE stretch of harness/library code without the engine's
+        tracing (two orders of magnitude faster).  Only sound when no symbolic value is touched inside."""
+        import contextlib
+        return contextlib.nullcontext()
+
     def errors_logged(self):
         """[(logger, exception type name)] that bacpypes logged at ERROR level on this
         path (its event loop and state machines swallow exceptions and log them)"""
